@@ -10,6 +10,7 @@ import (
 	"fmt"
 	"io"
 	"sync"
+	"testing/synctest"
 
 	"github.com/jdillenkofer/pithos/internal/storage/database"
 	"github.com/jdillenkofer/pithos/internal/storage/metadatapart/partstore"
@@ -96,6 +97,10 @@ func (i *Injector) InstallHooks() func() {
 			if err := i.Site("tx.commit.real"); err != nil {
 				if cancel := i.takeCancel(tc); cancel != nil {
 					cancel()
+					// let database/sql end the transaction (its watcher goroutine rolls back and marks
+					// the Tx done), as after a COMMIT that the driver reported as failed: Commit and
+					// every later Rollback then return sql.ErrTxDone
+					synctest.Wait()
 				}
 			}
 		case "tx.finalized":
